@@ -19,5 +19,5 @@ package util
 //@   props C17 C18
 //@   trusted
 //@   nopanic
-//@   modifies p[*], allmaps(p[0])
+//@   modifies p[*]
 //@   ensures forall(a, forall(b, inPP(p, a, b) == (old(inPP(p, a, b)) || (a == ref(ptr1) && b == ref(ptr2)))))
